@@ -33,7 +33,7 @@ ASSUMPTIONS = [
     'wall-clock window of the write call (only time-related oracle)',
 ]
 ANCHORS = ['Table.to_hdf5', 'Table.from_hdf5', 'general_formatter', 'vlen_list_of_str_formatter', 'general_parser', 'vlen_list_of_str_parser', 'load_table', 'parse_biom_table', 'save_table', 'biom_open']
-REQUIRED = ['format_fs_writes', 'parse_fs_reads', 'loader_load_table', 'loader_parse_table', 'loader_from_hdf5',
+REQUIRED = ['loader_load_table_handle', 'format_fs_writes', 'parse_fs_reads', 'loader_load_table', 'loader_parse_table', 'loader_from_hdf5',
             'loader_from_hdf5_observation_view', 'files_written',
             'layout_csc_seen', 'layout_unsorted_seen', 'nonascii_ids',
             'slash_in_ids_or_categories', 'group_metadata_checked',
@@ -113,7 +113,13 @@ def run_case(ctx, index):
         t2 = ctx.biom.load_table(path)
         compare_loaded(ctx, 'load_table', t2, src, cfg, wr, desc)
         ctx.count('loader_load_table')
+        import pathlib
+        t2b = ctx.biom.load_table(pathlib.Path(path))
+        compare_loaded(ctx, 'load_table-pathlib', t2b, src, cfg, wr, desc)
         with h5py.File(path, 'r') as f:
+            t2c = ctx.biom.load_table(f)
+            compare_loaded(ctx, 'load_table-handle', t2c, src, cfg, wr, desc)
+            ctx.count('loader_load_table_handle')
             t3 = ctx.biom.parse_table(f)
             compare_loaded(ctx, 'parse_table', t3, src, cfg, wr, desc)
             ctx.count('loader_parse_table')
